@@ -12,6 +12,15 @@ BASE_NOTE = (
 
 # property -> (category, text, technique, design_ref, extra note)
 CLAIMS = {
+    "C26": (
+        "other",
+        "The plural count kernel _count is verified for all values (integers incl. 0 and 1 are their own count; None/booleans/non-numeric text mean no count). "
+        "That the filters substitute only %(name)s placeholders (regex substitution, never printf formatting of the whole message) and that the tag doubles % in literal text are structural obligations on the real source. "
+        "The substitution result itself depends on regular-expression semantics, which no contract here can decide; it is decided by a bounded exhaustive contract check (all messages of <= 2, thorough 3, pieces over a 17-piece alphabet x 5 filters, plural forms x counts, tag messages) against a reference substitution written from the statement.",
+        "contract-based verification of the count kernel + structural obligations + bounded exhaustive contract check (labelled bounded)",
+        "DESIGN.md section 4 C26",
+        "",
+    ),
     "C08": (
         "proof",
         "Two-run (relational) contracts on every limit-reading kernel of the render context (raise_for_loop_limit, assign, copy, get_buffer, _get_buffer, extend, LimitedStringIO.write): "
